@@ -13,6 +13,11 @@ def distinct : List String → List String
 def consistent (listing : List String) (statsModels : Nat) : Bool :=
   listing.all (· != "") && statsModels == (distinct listing).length
 
+/-- …consistent across views: the names whose model→endpoints lookup contains the endpoint are exactly
+    the distinct names of its listing (what is listed is routable, and nothing else is). -/
+def lookupMatchesListing (listing routable : List String) : Bool :=
+  (distinct listing).all (routable.contains ·) && routable.all (listing.contains ·)
+
 /-- A listing that cannot be used (error reported) leaves the previous listing in place. -/
 def errorKeeps (before after : List String) (err : Bool) : Bool := !err || before == after
 
